@@ -7,6 +7,7 @@ var Registry = map[string]func(tier, replay string) int{
 	"C03": RunC03,
 	"C06": RunC06,
 	"C08": RunC08,
+	"C09": RunC09,
 	"C10": RunC10,
 	"C05": RunC05,
 	"C12": RunC12,
